@@ -150,6 +150,12 @@ func Candidates(ref *refexec.Result) []Candidate {
 			out = append(out, Candidate{Key: k, Kind: "R", Pos: ref.Pos[k]})
 		}
 	}
+	for _, v := range ref.Values {
+		if !seen["V"+v.Key] {
+			seen["V"+v.Key] = true
+			out = append(out, Candidate{Key: v.Key, Kind: "V", Pos: refexec.PosInfo{NonNull: v.NonNull}})
+		}
+	}
 	for _, k := range ref.Dirs {
 		if !seen["D"+k] && !ref.DirsMulti[k] {
 			seen["D"+k] = true
@@ -181,8 +187,25 @@ func DrawOverrides(t *rapid.T, cands []Candidate, max int, allowPanic bool) map[
 	}
 	out := map[string]plan.Outcome{}
 	for i := 0; i < n; i++ {
-		cd := cands[rapid.IntRange(0, len(cands)-1).Draw(t, "which")]
+		// resolver / directive / value positions are chosen with equal weight, then one of that class
+		var classes []string
+		byClass := map[string][]Candidate{}
+		for _, cd := range cands {
+			if len(byClass[cd.Kind]) == 0 {
+				classes = append(classes, cd.Kind)
+			}
+			byClass[cd.Kind] = append(byClass[cd.Kind], cd)
+		}
+		cl := byClass[classes[rapid.IntRange(0, len(classes)-1).Draw(t, "class")]]
+		cd := cl[rapid.IntRange(0, len(cl)-1).Draw(t, "which")]
 		kinds := []plan.Kind{plan.Error, plan.Value}
+		if cd.Kind == "V" {
+			// a value read from the parent object or a list element: it can only be absent (nil
+			// pointer, nil interface, zero Time); where the Go type cannot say so the case is
+			// discarded by the check (counted)
+			out[cd.Key] = plan.Outcome{Kind: plan.Nil}
+			continue
+		}
 		if cd.Kind == "R" {
 			// a nil slice in a non-null list position is gqlgen's empty list, not a null
 			if !(cd.Pos.NonNull && cd.Pos.List) {
